@@ -16,6 +16,13 @@ storage of the path (Storage.tla).
                loaded) are validated by StorageTrace.tla:
                  Inv_C07_Storage/storage-model    -> reported by C07
                  Inv_C06_NoMissed/storage-model   -> reported by C06
+ Memory.tla  : MemoryMC - every history of up to 4 calls (store / load / slice / entries) over offsets of which two pairs
+               agree modulo 2^64: the memory agrees, offset by offset, with a concrete one (a load returns the last value
+               stored at exactly that offset, or zero; a store is local; reads are invisible).  Random histories on the
+               real `Memory` over offsets that agree in their low 16 / 32 / 41 / 63 / 64 / 65 / 128 / 255 bits, pushed or
+               computed (sums and differences that fold to them), symbolic offsets, byte stores and slices of constant
+               and symbolic size around the copy limit are validated by MemoryTrace.tla:
+                 Inv_C07_Memory/memory-model      -> reported by C07
 """
 import json
 import os
@@ -71,19 +78,45 @@ def run(tier, seed):
                     if r.get("step") == rec.get("step"):
                         break
         viol.append({"inv": x["inv"], "record": rec, "history": hist[-40:], "component": "storage"})
-    res = {"states": mc.distinct + tv.tlc.distinct + smc.distinct + stv.tlc.distinct,
-           "transitions": mc.generated + tv.tlc.generated + smc.generated + stv.tlc.generated, "calls": info["calls"],
+    # --- memory
+    mmc = run_tlc("MemoryMC", workers=4, timeout=600, name="MemoryMC")
+    tlc_must_pass(mmc, "MemoryMC")
+    mp = os.path.join(wd, "memory.ndjson")
+    p3 = harness(["memory-trace", "--seed", seed, "--runs", 400 if tier == "thorough" else 80, "--len", 150, "--out", mp], timeout=1200)
+    minfo = json.loads(p3.stdout.strip().splitlines()[-1])
+    mtv = validate_trace("MemoryTrace", mp, timeout=3000)
+    if mtv.matched < mtv.records:
+        raise ToolError(f"MemoryTrace could not consume record {mtv.matched + 1}: {str(mtv.first_unmatched)[:300]}")
+    mstat = list(printed(mtv.tlc.out_path, "TRACE"))[-1].get("cnt", {})
+    for x in mtv.viol:
+        rec = x.get("record", {})
+        hist = []
+        with open(mp) as fh:
+            for line in fh:
+                r = json.loads(line)
+                if r.get("run") == rec.get("run") and r.get("op") not in ("begin", "reset"):
+                    hist.append({k: r[k] for k in r if k in ("op", "k", "v", "n", "res")})
+                    if r.get("step") == rec.get("step"):
+                        break
+        viol.append({"inv": x["inv"], "record": rec, "history": hist[-40:], "component": "memory"})
+    res = {"states": mc.distinct + tv.tlc.distinct + smc.distinct + stv.tlc.distinct + mmc.distinct + mtv.tlc.distinct,
+           "transitions": mc.generated + tv.tlc.generated + smc.generated + stv.tlc.generated + mmc.generated + mtv.tlc.generated,
+           "memory_calls": minfo["calls"], "memory_runs": minfo["runs"], "memory_loads": int(mstat.get("loads", 0)),
+           "memory_slices": int(mstat.get("slices", 0)), "memory_entry_drift": int(mstat.get("drift", 0)),
+           "calls": info["calls"],
            "failing_calls": info["failing_calls"], "runs": info["runs"], "storage_calls": sinfo["calls"], "storage_runs": sinfo["runs"],
            "viol": viol}
     log(f"[vmstate] StackMC {mc.distinct} states, {info['calls']} calls on the real stack ({info['failing_calls']} failing); "
-        f"StorageMC {smc.distinct} states, {sinfo['calls']} calls on the real storage; {len(viol)} rejected")
+        f"StorageMC {smc.distinct} states, {sinfo['calls']} calls on the real storage; "
+        f"MemoryMC {mmc.distinct} states, {minfo['calls']} calls on the real memory; {len(viol)} rejected")
     with open(cache, "w") as fh:
         json.dump(res, fh)
     return res
 
 
 def coverage(res):
-    return {k: res[k] for k in ("calls", "failing_calls", "runs", "storage_calls", "storage_runs")}
+    return {k: res[k] for k in ("calls", "failing_calls", "runs", "storage_calls", "storage_runs", "memory_calls", "memory_runs",
+                                "memory_loads", "memory_slices", "memory_entry_drift")}
 
 
 def report(prop, v, res):
@@ -92,7 +125,15 @@ def report(prop, v, res):
     n = 0
     for x in res["viol"]:
         for inv in x["inv"]:
-            if inv.startswith(want) and x.get("component") == "storage":
+            if inv.startswith(want) and x.get("component") == "memory":
+                rec = x["record"]
+                v.violation(f"{inv}:{rec.get('op')}",
+                            f"{inv}: the memory answered {str(rec.get('res'))[:160]} to {rec.get('op')}({rec.get('k')}, n={rec.get('n')}) at step "
+                            f"{rec.get('step')} of run {rec.get('run')}, which Memory.tla does not allow: a load returns the last value "
+                            f"stored at exactly that offset, or zero",
+                            {"kind": "memory-history", "history": x["history"]})
+                n += 1
+            elif inv.startswith(want) and x.get("component") == "storage":
                 rec = x["record"]
                 v.violation(f"{inv}:{rec.get('op')}",
                             f"{inv}: the storage answered {str(rec.get('res'))[:120]} to {rec.get('op')}({rec.get('k')}) at step "
